@@ -478,6 +478,10 @@ class ScaleMonitor(Handler):
             return
         if call.exc is not None:
             rec.mon("C06.scale.refusal")
+            with np.errstate(invalid="ignore"):
+                holds_negative = bool(np.any(_vals(pre, "frequencies") < 0))
+            if not free and holds_negative:
+                return  # negative contents (made under free arithmetics) exist only there: scaling them outside is refused (C19)
             if c > 0:
                 rec.fail(prop="C06", monitor="C06.scale.refusal", op=op, symptom=f"valid positive scalar refused: {type(call.exc).__name__}", diff=["raised"],
                          detail={"factor": repr(other), "error": str(call.exc)[:160], "dtype": pre["dtype"]})
